@@ -32,6 +32,8 @@ Msg == /\ l <= Len(Rec) /\ Rec[l].ev = "msg"
               ok   == /\ \E o \in outs : /\ o.ret = ev.ret /\ o.st = post
                                          /\ (o.ret = NoErr => o.resps = ev.resps)
                       /\ ev.hook = (IF ev.ret = NoErr THEN 0 ELSE 1)      \* the error hook ran exactly once iff the message failed
+                      /\ LET ntrg == Cardinality({k \in 1..Len(ev.units) : ev.units[k].op = "trg"}) IN   \* the trigger hook: once per executed *TRG
+                         IF ev.ret = NoErr THEN ev.trigs = ntrg ELSE ev.trigs <= ntrg
           IN /\ (IF ok THEN TRUE ELSE PrintT(<<"BAD", l, ToJson([allowed |-> {[ret |-> o.ret, resps |-> o.resps, post |-> StJson(o.st)] : o \in outs}])>>))
              /\ st' = post
        /\ env' = env /\ l' = l + 1
